@@ -260,6 +260,7 @@ def run_unit(root, scratch, idx, unit, rlimit=None):
         spans = [sp for sp in d.get("spans", []) if os.path.basename(sp.get("file_name", "")) == os.path.basename(path)]
         fn = None
         clause = None
+        hint_primary = False
         where = []
         for s in spans:
             o = origin.get(s["line_start"]) or origin.get(str(s["line_start"]))
@@ -269,7 +270,9 @@ def run_unit(root, scratch, idx, unit, rlimit=None):
                 f = o.split(":", 1)[0] if not o.startswith("v") or True else o
                 f = o.rsplit(":", 1)[0]
                 kind = o.rsplit(":", 1)[1]
-                if kind not in ("body", "signature") and ("failed" in lab or s.get("is_primary")):
+                if kind == "hint" and s.get("is_primary"):
+                    hint_primary = True
+                if kind not in ("body", "signature", "hint") and ("failed" in lab or s.get("is_primary")):
                     clause = o
                 if fn is None or kind == "body":
                     fn = f
@@ -294,10 +297,18 @@ def run_unit(root, scratch, idx, unit, rlimit=None):
         low = msg.lower()
         if "rlimit" in low or "resource limit" in low or "timed out" in low:
             res["undecided"].append("rlimit exceeded in %s (%s)" % (fn, msg))
+        elif hint_primary and clause is None:
+            # a proof hint (assert / lemma precondition inside a spliced `proof { }` block) no longer holds: the proof is
+            # broken, which says nothing about the contract clauses themselves (those are reported separately if they fail)
+            res["hint_failures"] = res.get("hint_failures", []) + ["proof hint failed in %s (%s) @ %s" % (fn, msg, where)]
         elif any(k in low for k in VIOLATION_MSGS):
             res["failures"].append(entry)
         else:
             res["undecided"].append("verus error not classified as a failed obligation: %s @ %s" % (msg, where))
+    for hf in res.get("hint_failures", []):
+        fnname = hf.split(" in ", 1)[1].split(" (", 1)[0]
+        if not any(f["fn"] == fnname for f in res["failures"]):
+            res["undecided"].append(hf)
     if res["errors"] and not res["failures"] and not res["undecided"]:
         res["undecided"].append("verus reported %d errors but none could be parsed" % res["errors"])
     return res
